@@ -91,15 +91,131 @@ func runFiles(r *ev.Run, dir string, rp filesReplay, idx int) {
 	r.Distinct(fmt.Sprintf("files|init%d|%v", rp.Initial, rp.Sizes))
 }
 
+// ---- import side of the file layer: keys.ImportKeysCommand reads the two files and hands them
+// to the importer. Neither file is text (DER / Secure Cell / raw key bytes): the importer has to
+// receive exactly the bytes of the files, so that what the importers reject (main part: every
+// modification of a bundle or of its access keys, appended bytes included) is rejected by the
+// command as well, and a genuine export is not altered on its way in. Every pair of contents from
+// a menu of short byte strings over the bytes that text handling treats specially, and of
+// realistic sizes ending or starting in each of them, goes through the real command with a
+// recording importer.
+
+type importParams struct {
+	fileParams
+	data, keys []byte
+	called     int
+}
+
+func (p *importParams) Import(b *keystore.KeysBackup) ([]keystore.KeyDescription, error) {
+	p.called++
+	p.data, p.keys = append([]byte{}, b.Data...), append([]byte{}, b.Keys...)
+	return nil, nil
+}
+func (p *importParams) UseJSON() bool         { return true }
+func (p *importParams) ListRotatedKeys() bool { return false }
+
+type importReplay struct {
+	Part   string `json:"part"`
+	Bundle []byte `json:"bundle_file"`
+	Secret []byte `json:"secret_file"`
+}
+
+var specialBytes = []byte{0x00, 0x0a, 0x0d, 0x20, 0x09, 0x41, 0xff}
+
+func importContents(thorough bool) [][]byte {
+	var out [][]byte
+	for _, a := range specialBytes {
+		out = append(out, []byte{a})
+		for _, b := range specialBytes {
+			out = append(out, []byte{a, b})
+		}
+	}
+	sizes := []int{32}
+	if thorough {
+		sizes = []int{32, 246, 1127}
+	}
+	for _, n := range sizes {
+		for _, b := range specialBytes {
+			last, first, both := fill(n, 'k'), fill(n, 'k'), fill(n, 'k')
+			last[n-1], first[0] = b, b
+			both[n-1], both[n-2] = b, b
+			out = append(out, last, first, both)
+		}
+	}
+	return out
+}
+
+func runImportFiles(r *ev.Run, dir string, rp importReplay) {
+	p := &importParams{fileParams: fileParams{data: filepath.Join(dir, "in-bundle"), key: filepath.Join(dir, "in-secret")}}
+	if err := os.WriteFile(p.fileParams.data, rp.Bundle, 0o600); err != nil {
+		ev.Fatalf("scratch: %v", err)
+	}
+	if err := os.WriteFile(p.key, rp.Secret, 0o600); err != nil {
+		ev.Fatalf("scratch: %v", err)
+	}
+	// the command prints the list of imported keys to the standard output
+	saved := os.Stdout
+	if null, err := os.OpenFile(os.DevNull, os.O_WRONLY, 0); err == nil {
+		os.Stdout = null
+		defer null.Close()
+	}
+	func() {
+		defer func() { os.Stdout = saved }()
+		keys.ImportKeysCommand(p)
+	}()
+	r.Transitions(1)
+	r.Eval(1)
+	if p.called != 1 {
+		r.Violation("C18/acra-keys-files/import/importer-not-called-once", fmt.Sprintf("the importer was called %d times", p.called), rp)
+		return
+	}
+	for _, chk := range []struct {
+		name      string
+		got, want []byte
+	}{{"bundle", p.data, rp.Bundle}, {"secret", p.keys, rp.Secret}} {
+		if !bytes.Equal(chk.got, chk.want) {
+			r.Violation("C18/acra-keys-files/import/"+chk.name+"-file/altered-before-verification",
+				fmt.Sprintf("the %s file holds %x (%d bytes) but the importer received %x (%d bytes): a file modified in this way is not seen as modified, and a genuine file of this shape is damaged", chk.name, head(chk.want), len(chk.want), head(chk.got), len(chk.got)), rp)
+		}
+	}
+}
+
+func head(b []byte) []byte {
+	if len(b) > 8 {
+		return b[len(b)-8:]
+	}
+	return b
+}
+
+func importFilesPart(r *ev.Run, dir string) {
+	cs := importContents(r.Thorough())
+	n := 0
+	for _, b := range cs {
+		for _, s := range cs {
+			runImportFiles(r, dir, importReplay{Part: "acra-keys-import-files", Bundle: b, Secret: s})
+			n++
+		}
+	}
+	r.States(n)
+	r.Set("acra_keys_import_file_pairs", n)
+}
+
 func filesPart(r *ev.Run) {
 	dir := fx.Scratch("c18files")
 	defer os.RemoveAll(dir)
 	if r.Replay != "" {
+		var ip importReplay
+		r.LoadReplay(&ip)
+		if ip.Part == "acra-keys-import-files" {
+			runImportFiles(r, dir, ip)
+			return
+		}
 		var rp filesReplay
 		r.LoadReplay(&rp)
 		runFiles(r, dir, rp, 0)
 		return
 	}
+	importFilesPart(r, dir)
 	maxLen := 2
 	if r.Thorough() {
 		maxLen = 3
